@@ -16,7 +16,7 @@ RULE = ('generated (class model, valid or invalid document) pairs; a sub-node is
         'Lean model run on the composer\'s node graph; self-referential aliases must raise an error '
         '(never RecursionError).  Non-trivial = the aliased text really shares a non-scalar or retyped '
         'node.'
-        'Also: empty strings / collections anchored at one declared type and reused at another'
+        ' Also: empty strings / collections anchored at one declared type and reused at another'
         ' (incl. a hook that fills in an attribute in place), every such case compared with its'
         ' written-out copy; cycles through merge keys in untyped regions.')
 ASSUMPTIONS = ['the composer represents an alias as a second reference to the anchored node object']
